@@ -8,6 +8,7 @@ package dependency
 import (
 	"cmp"
 	"fmt"
+	"maps"
 	"slices"
 	"sync"
 
@@ -223,6 +224,40 @@ func (db *Database) DeleteControllerInput(controllerName string, dep controller.
 	}
 
 	return nil
+}
+
+// RollbackController removes every output and input registered under the controller name.
+//
+// It is used to undo a partially applied registration of a controller which was rejected.
+func (db *Database) RollbackController(controllerName string) {
+	db.mu.Lock()
+	defer db.mu.Unlock()
+
+	isController := func(s string) bool {
+		return s == controllerName
+	}
+
+	maps.DeleteFunc(db.exclusiveOutputs, func(_ resource.Type, name string) bool {
+		return name == controllerName
+	})
+
+	for resourceType, sharedControllers := range db.sharedOutputs {
+		if sharedControllers = slices.DeleteFunc(sharedControllers, isController); len(sharedControllers) == 0 {
+			delete(db.sharedOutputs, resourceType)
+		} else {
+			db.sharedOutputs[resourceType] = sharedControllers
+		}
+	}
+
+	delete(db.controllerInputs, controllerName)
+
+	for key, controllers := range db.inputLookup {
+		db.inputLookup[key] = slices.DeleteFunc(controllers, isController)
+	}
+
+	for key, controllers := range db.inputLookupID {
+		db.inputLookupID[key] = slices.DeleteFunc(controllers, isController)
+	}
 }
 
 // GetControllerInputs returns a list of controller dependencies.
